@@ -14,6 +14,7 @@ pub mod ast;
 pub mod dec;
 pub mod enc;
 pub mod gen;
+pub mod genfield;
 pub mod mutate;
 pub mod num;
 pub mod tables;
